@@ -355,22 +355,39 @@ class SigmaCollection:
 
         # Finally merge all SigmaCollection's and return the result. Merge without
         # resolving references (we'll do a single resolution pass after merge).
-        merged = cls.merge(sigma_collections, resolve_references=False)
+        merged = cls.merge(
+            sigma_collections, resolve_references=False, collect_errors=collect_errors
+        )
         if resolve_references:
-            merged.resolve_rule_references()
+            try:
+                merged.resolve_rule_references()
+            except SigmaError as e:  # e.g. a reference to a rule that is in none of the files
+                if collect_errors:
+                    merged.errors.append(e)
+                else:
+                    raise
         return merged
 
     @classmethod
     def merge(
-        cls: type[Self], collections: Iterable[SigmaCollection], resolve_references: bool = True
+        cls: type[Self],
+        collections: Iterable[SigmaCollection],
+        resolve_references: bool = True,
+        collect_errors: bool = False,
     ) -> Self:
-        """Merge multiple SigmaCollection objects into one and return it."""
+        """
+        Merge multiple SigmaCollection objects into one and return it.
+
+        With collect_errors the errors of applying the filters and resolving the references of the
+        merged collection are added to its errors instead of being raised.
+        """
         return cls(
             init_rules=[
                 rule for collection in collections for rule in collection.rules + collection.filters
             ],
             errors=[error for collection in collections for error in collection.errors],
             resolve_references=resolve_references,
+            collect_errors=collect_errors,
         )
 
     def get_output_rules(self: Self) -> Iterable[SigmaRuleBase]:
